@@ -110,12 +110,26 @@ Definition uri_rfc_path (s : bytes) : option (list bytes) :=
 Definition uri_spec_query (s : bytes) : option (list bytes) :=
   uri_decode_all (uri_raw_query_items s).
 
-(* a buffer of this size is enough for coap_split_path / coap_split_query: room for every raw
-   segment (dot segments and segments that ".." removes later included) *)
-Fixpoint uri_need (raw : list bytes) : Z :=
-  match raw with [] => 0 | x :: t => 3 + len x + uri_need t end.
-Definition uri_path_need (s : bytes) : Z := uri_need (uri_raw_path_segs s).
-Definition uri_query_need (s : bytes) : Z := uri_need (uri_raw_query_items s).
+(* the options as they lie in the output buffer: delta 0, length, value *)
+Definition uri_encs (l : list bytes) : list bytes := map (opt_enc 0) l.
+
+(* The buffer size coap_split_path needs: the largest size the option area reaches while the
+   segments are processed (a segment that a later ".." removes still has to fit first). *)
+Definition uri_next (d : bytes) (stack : list bytes) : list bytes :=
+  if uri_is_dot d then stack else if uri_is_dotdot d then tl stack else d :: stack.
+Fixpoint uri_peak (ds : list bytes) (stack : list bytes) : Z :=
+  match ds with
+  | [] => uri_sumlen (uri_encs stack)
+  | d :: t => Z.max (uri_sumlen (uri_encs stack)) (uri_peak t (uri_next d stack))
+  end.
+Definition uri_path_need (s : bytes) : Z :=
+  match uri_decode_all (uri_raw_path_segs s) with Some ds => uri_peak ds [] | None => 0 end.
+(* coap_split_query: all items *)
+Definition uri_query_need (s : bytes) : Z :=
+  match uri_decode_all (uri_raw_query_items s) with
+  | Some ds => uri_sumlen (uri_encs ds)
+  | None => 0
+  end.
 
 (* the last raw segment is "." or ".." (literally or escaped) *)
 Definition uri_ends_in_dot (ds : list bytes) : bool :=
